@@ -2,6 +2,7 @@
 """Runs the registered quick checks against every kept seeded change (applied to /repo, reverted afterwards) and records the outcome in meta.json."""
 import json, os, subprocess, sys, re
 V = '/verif'
+SCRATCH = '/tmp/wt_seed'   # seeds are applied to a scratch worktree of /repo (VERIF_REPO), not to /repo itself
 EXTRA = {'C05-v2': ['C05', 'C16'], 'C06-v1': ['C06'], 'C06-v2': ['C06', 'C05'], 'C07-v2': ['C07', 'C08'], 'C08-v1': ['C08'], 'C08-v2': ['C08', 'C07'],
          'C04-v1': ['C04'], 'C04-v2': ['C04'], 'C11-v1': ['C11'], 'C11-v2': ['C11'], 'C03-v1': ['C03'], 'C03-v2': ['C03'], 'C01-v1': ['C01'], 'C01-v2': ['C01'], 'C09-v1': ['C09', 'C03'], 'C09-v2': ['C09'],
          'C13-v1': ['C13'], 'C13-v2': ['C13'], 'C18-v1': ['C18'], 'C18-v2': ['C18'], 'C05-v1': ['C05'], 'C02-v1': ['C02'], 'C02-v2': ['C02'], 'C07-v1': ['C07']}
@@ -16,22 +17,23 @@ for sid in sorted(os.listdir(V + '/seeded')):
     patch = os.path.join(d, 'patch_rebased.diff') if os.path.exists(os.path.join(d, 'patch_rebased.diff')) else os.path.join(d, 'patch.diff')
     if all(pp in meta.get('checks_run_against_it', {}) for pp in EXTRA.get(sid, [meta['breaks_property']])) and not force:
         continue
-    if subprocess.run(['git', '-C', '/repo', 'apply', '--check', patch]).returncode != 0:
+    subprocess.run(['git', '-C', SCRATCH, 'checkout', '--detach', subprocess.run(['git', '-C', '/repo', 'rev-parse', 'HEAD'], capture_output=True, text=True).stdout.strip()], capture_output=True)
+    if subprocess.run(['git', '-C', SCRATCH, 'apply', '--check', patch]).returncode != 0:
         meta['checks_run_against_it'] = {'error': 'patch does not apply to the current /repo (fixes changed the context); needs a rebased patch'}
         json.dump(meta, open(mp, 'w'), indent=1)
         print(sid, 'PATCH DOES NOT APPLY')
         continue
-    subprocess.run(['git', '-C', '/repo', 'apply', patch], check=True)
+    subprocess.run(['git', '-C', SCRATCH, 'apply', patch], check=True)
     try:
         for prop in EXTRA.get(sid, [meta['breaks_property']]):
             if not force and prop in meta.get('checks_run_against_it', {}):
                 continue
-            p = subprocess.run([V + '/check', prop, '--no-evidence'], cwd=V, capture_output=True, text=True)
+            p = subprocess.run([V + '/check', prop, '--no-evidence'], cwd=V, capture_output=True, text=True, env=dict(os.environ, VERIF_REPO=SCRATCH, VERIF_WORK='/verif/.work_matrix'))
             viol = re.findall(r'harness=(\S+) sig=(\S+)', p.stdout)
             meta['checks_run_against_it'][prop] = {'cmd': './check %s --tier quick (patch applied to /repo, reverted afterwards)' % prop, 'exit': p.returncode, 'caught': p.returncode == 1,
                                                    'violations': sorted(set('%s %s' % v for v in viol))[:6]}
             print(sid, prop, 'exit', p.returncode, sorted(set(v[0] for v in viol)))
             sys.stdout.flush()
     finally:
-        subprocess.run(['git', '-C', '/repo', 'checkout', '--', '.'], check=True)
+        subprocess.run(['git', '-C', SCRATCH, 'checkout', '--', '.'], check=True)
     json.dump(meta, open(mp, 'w'), indent=1)
